@@ -198,6 +198,33 @@ Section Coarse.
         end
     end.
 
+  (* every complete coarse schedule from c (threads 0..n-1), depth first; fuel = maximal length *)
+  Fixpoint coarse_all (fuel : nat) (n : nat) (c : cf) : list (list nat) :=
+    match fuel with
+    | O => [[]]
+    | S f =>
+        let next := map (fun i => (i, coarse_step c i)) (seq 0 n) in
+        let succ := flat_map (fun ic => match snd ic with
+                                        | Some (c', _) => map (cons (fst ic)) (coarse_all f n c')
+                                        | None => []
+                                        end) next in
+        match succ with [] => [[]] | _ => succ end
+    end.
+
+  (* a walk: at every step the (r mod #enabled)-th enabled thread, r taken from rs *)
+  Fixpoint coarse_walk (rs : list nat) (n : nat) (c : cf) : list nat :=
+    match rs with
+    | [] => []
+    | r :: rs' =>
+        let en := flat_map (fun i => match coarse_step c i with Some (c', _) => [(i, c')] | None => [] end)
+                           (seq 0 n) in
+        match en with
+        | [] => []
+        | x :: _ => let ic := nth (Nat.modulo r (List.length en)) en x in
+                    fst ic :: coarse_walk rs' n (snd ic)
+        end
+    end.
+
   (* what thread i would do next: the stop pc it would execute, and whether it can *)
   Definition coarse_next (c : cf) (i : nat) : string * bool :=
     let c1 := advance 16 c i in
@@ -233,7 +260,29 @@ Definition run_swapc (args : list value) : value :=
   | _ => vtag "badargs" []
   end.
 
+(* ["swap.all", cfg, progs]: every complete coarse schedule; ["swap.walk", cfg, progs, rs]: one walk *)
+Definition run_swapall (args : list value) : value :=
+  match args with
+  | cfg :: pv :: rest =>
+      match dec_nat (cfg_get cfg "p0"), dec_bool (cfg_get cfg "has_cache"),
+            dec_nats (cfg_get cfg "untagged"), dec_nats (cfg_get cfg "uncompilable"), dec_progs pv with
+      | Some p0, Some hc, Some ut, Some uc, Some progs =>
+          let stepf := ntstep ut uc hc in
+          let n := List.length progs in
+          match rest with
+          | [] => VList (map (fun l => VList (map vnat l)) (coarse_all hc stepf 64 n (ninit ut uc p0 progs)))
+          | [rs] => match dec_nats rs with
+                    | Some rs' => VList (map vnat (coarse_walk hc stepf rs' n (ninit ut uc p0 progs)))
+                    | None => vtag "ood" []
+                    end
+          | _ => vtag "badargs" []
+          end
+      | _, _, _, _, _ => vtag "ood" []
+      end
+  | _ => vtag "badargs" []
+  end.
+
 Definition entries : list (string * (list value -> value)) :=
-  [("swap.run", run_swap); ("swap.runc", run_swapc); ("swap.runold", run_oldswap)].
+  [("swap.run", run_swap); ("swap.runc", run_swapc); ("swap.all", run_swapall); ("swap.walk", run_swapall); ("swap.runold", run_oldswap)].
 
 Definition run_line : string -> string := run_with entries.
